@@ -5,6 +5,11 @@
 //! the working tree's text) under the module paths they refer to (`crate::primitives`, `crate::db::AccountStatus`,
 //! `super::..`).  The re-exports mirror crates/revm/src/db/states.rs for the included files only.
 //! NOT included: state.rs, bundle_state.rs, cache.rs, state_builder.rs, transition_state.rs.
+//!
+//! All harnesses are BOUNDED stand-ins and run on EMPTY storage maps with concrete existence patterns: a std HashMap
+//! holding a key with a symbolic value is not affordable in CBMC (measurements and causes: mutations/C16/README.md,
+//! src/common.rs).  The checking functions in c15.rs / c16.rs / c19.rs still take key patterns (`Pat`): instances with
+//! a key were tried, did not finish, and are not registered.
 #![allow(unused, unreachable_pub, deprecated)]
 
 pub use revm_interpreter::primitives;
